@@ -47,14 +47,16 @@ Proof. exact classes_reached. Qed.
 
 (* ---- kinds and docstrings -------------------------------------------------------------------------------------
    kind_ok: FUNCTION at module level / METHOD, CLASS_METHOD, STATIC_METHOD in a class exactly as the (single builtin)
-   decorator or the old-style `x = staticmethod(x)` wrapping says; is_async = coroutine; PROPERTY for a property object;
+   decorator or the old-style `x = staticmethod(x)` wrapping (also of an already wrapped method: the outer wrapper
+   decides) says; is_async = coroutine; PROPERTY for a property object (also when a method assigns `self.p = ..`);
    a class for a class, and for classes bound at module level EXCEPTION exactly when the class is a subclass of
-   BaseException (through builtin bases and module-level bases); a variable kind for anything else.
-   doc_ok: the docstring of a function or class is cleandoc of the first-statement string.
-   _partial: for classes nested in classes the CLASS / EXCEPTION distinction is not part of kind_ok (tied by the correspondence
-   check and the oracle only); the strict subset (py_exec) excludes bases named ExceptionGroup / BaseExceptionGroup /
-   EncodingWarning (C03_exception_table_refuted) and `self.p = ..` for a property p (C03_kinds_property_self_refuted);
-   a property's docstring is outside doc_ok (C03_docstring_property_refuted). *)
+   BaseException (through builtin bases -- ExceptionGroup, BaseExceptionGroup, EncodingWarning included -- and
+   module-level bases); a variable kind for anything else.
+   doc_ok: the docstring of a function, property or class is cleandoc of the first-statement string.
+   _partial: for classes nested in classes the CLASS / EXCEPTION distinction is not part of kind_ok (tied by the
+   correspondence check and the oracle only); shadow_guard and the agreed subset as for the names.
+   The three defects that made these statements false before (C03_*_old_refuted below) are repaired in /repo
+   (fbfbc45, 76cecbe, 7fd5e3f): no guard about properties or exception names is left. *)
 Theorem C03_kinds_agree_partial :
   forall (clean : text -> text) prog e sc c' e' n o v,
     py_exec prog = Some e -> shadow_guard prog = true ->
@@ -77,7 +79,7 @@ Proof. reflexivity. Qed.
 
 (* attribute docstrings (CPython has none: these are statements about the builder only).  A string statement right after
    `n = <expr>` at module level becomes the docstring of n (with several targets `a = b = ..` the LAST target gets it: the
-   window is builder.currentAttr); a string after a def that is not a property, after a class, or after an augmented
+   window is builder.currentAttr); a string after a def (property or not), after a class, or after an augmented
    assignment is nobody's docstring. *)
 Theorem C03_docstring_attribute :
   forall (clean : text -> text) flow inh outer n r d s,
@@ -90,7 +92,6 @@ Proof. exact attr_doc_after_assign. Qed.
 
 Theorem C03_docstring_not_after_def :
   forall (clean : text -> text) sc flow inh outer nm ds a body d s,
-    f_prop (deco_flags (match sc with ScClass => true | ScModule => false end) nm ds) = false ->
     let s1 := walk_stmt clean (Def nm ds a body) sc flow inh outer s in
     walk_stmt clean (ExprStr d) sc flow inh outer s1 = s1.
 Proof. exact string_after_def_ignored. Qed.
@@ -156,41 +157,68 @@ Proof.
   - split; [reflexivity|]. lazy. tauto.
 Qed.
 
-(* class C:  @property def p(self): "doc"     "stray" *)
+(* ---- the three defects repaired in /repo, as they were (old definitions kept) and as they are now --------------- *)
+(* before fbfbc45 _handlePropertyDef left builder.currentAttr on the property: the next string statement replaced its docstring *)
+Theorem C03_docstring_property_old_refuted :
+  let s_old := set_cur (Some np) (add_obj np (OAttr KProperty (Some nx) None None) empty_st) in
+  lookup np (contents (attach_doc idc ny s_old)) = Some (OAttr KProperty (Some ny) None None).
+Proof. reflexivity. Qed.
+
+(* class C:  @property def p(self): "x"     "y"   -- now: the property keeps the getter's docstring *)
 Definition w_stray : list stmt :=
   [Class nC [] [Def np [DName [t_property]] false [ExprStr nx]; ExprStr ny]].
 
-Theorem C03_docstring_property_refuted :
-  exists e cC eC, py_exec w_stray = Some e /\ ns_at (m_contents (doc_walk idc w_stray)) e ScClass cC eC /\
+Example C03_docstring_property_fixed :
+  exists e cC eC, py_exec w_stray = Some e /\ shadow_guard w_stray = true /\
+                  ns_at (m_contents (doc_walk idc w_stray)) e ScClass cC eC /\
                   plookup np eC = Some (VFun false WProp (Some nx)) /\
-                  lookup np cC = Some (OAttr KProperty (Some ny) None None).
+                  lookup np cC = Some (OAttr KProperty (Some nx) None None).
 Proof.
-  eexists. eexists. eexists. split; [lazy; reflexivity|]. split.
+  eexists. eexists. eexists. split; [lazy; reflexivity|]. split; [reflexivity|]. split.
   - eapply ns_class with (n := nC); [apply ns_root|lazy; reflexivity|lazy; reflexivity].
   - split; reflexivity.
 Qed.
 
-(* class C:  @property def p(self): pass     def __init__(self): self.p = 1 *)
+(* before 76cecbe _handleInstanceVar turned an existing property into an instance variable *)
+Theorem C03_kinds_property_self_old_refuted :
+  let s := add_obj np (OAttr KProperty None None None) empty_st in
+  exists d a v, lookup np (contents (handle_instance_var_old true [] np None (Some (RLit (LInt 1))) s))
+                = Some (OAttr KInstanceVar d a v).
+Proof. repeat eexists. Qed.
+
+(* class C:  @property def p(self): pass     def __init__(self): self.p = 1   -- now inside the subset, p stays a property *)
 Definition w_propself : list stmt :=
   [Class nC [] [Def np [DName [t_property]] false [];
                 Def n_init [] false [Assign [TSelf np] (RLit (LInt 1))]]].
 
-Theorem C03_kinds_property_self_refuted :
-  exists e cC eC, py_exec_lax w_propself = Some e /\ ns_at (m_contents (doc_walk idc w_propself)) e ScClass cC eC /\
+Example C03_kinds_property_self_fixed :
+  exists e cC eC, py_exec w_propself = Some e /\ shadow_guard w_propself = true /\
+                  ns_at (m_contents (doc_walk idc w_propself)) e ScClass cC eC /\
                   plookup np eC = Some (VFun false WProp None) /\
-                  exists d a v, lookup np cC = Some (OAttr KInstanceVar d a v).
+                  lookup np cC = Some (OAttr KProperty None None None).
 Proof.
-  eexists. eexists. eexists. split; [lazy; reflexivity|]. split.
+  eexists. eexists. eexists. split; [lazy; reflexivity|]. split; [reflexivity|]. split.
   - eapply ns_class with (n := nC); [apply ns_root|lazy; reflexivity|lazy; reflexivity].
-  - split; [reflexivity|]. eexists. eexists. eexists. lazy. reflexivity.
+  - split; reflexivity.
 Qed.
 
-(* class G(ExceptionGroup): pass *)
+(* before 7fd5e3f the table lacked the builtin exception classes added in Python 3.10 / 3.11 *)
+Definition new_exceptions : list name :=
+  [n_ExceptionGroup; [66;97;115;101;69;120;99;101;112;116;105;111;110;71;114;111;117;112]%N;
+   [69;110;99;111;100;105;110;103;87;97;114;110;105;110;103]%N].
+Definition std_lib_exceptions_old : list name := filter (fun n => negb (mem n new_exceptions)) std_lib_exceptions.
+
+Theorem C03_exception_table_old_refuted :
+  forallb (fun n => match py_builtin_class n with Some true => negb (mem n std_lib_exceptions_old) | _ => false end)
+          new_exceptions = true.
+Proof. vm_compute. reflexivity. Qed.
+
+(* class G(ExceptionGroup): pass   -- now an EXCEPTION, as issubclass(G, BaseException) says *)
 Definition w_excgroup : list stmt := [Class nG [n_ExceptionGroup] []].
 
-Theorem C03_exception_table_refuted :
-  exists e d c oo ih d' ns, py_exec_lax w_excgroup = Some e /\
-     plookup nG e = Some (VClass true d' ns) /\ lookup nG (m_contents (doc_walk idc w_excgroup)) = Some (OClass false d c oo ih).
+Example C03_exception_table_fixed :
+  exists e d c oo ih d' ns, py_exec w_excgroup = Some e /\
+     plookup nG e = Some (VClass true d' ns) /\ lookup nG (m_contents (doc_walk idc w_excgroup)) = Some (OClass true d c oo ih).
 Proof. repeat eexists; lazy; reflexivity. Qed.
 
 (* x = 'a'     x, y = 1, 2  : the type inferred from the first literal is kept *)
@@ -217,9 +245,11 @@ Proof. reflexivity. Qed.
 Definition w_ok : list stmt :=
   [ExprStr nx;
    Assign [TName nx] (RLit (LInt 1)); Def nx [] true [ExprStr ny];
-   Class nA [n_ValueError] [Def nf [DName [t_staticmethod]] false []; Def ng [] false [Assign [TSelf ny] (RLit (LList []))];
+   Class nA [n_ExceptionGroup] [Def nf [DName [t_staticmethod]] false []; Assign [TName nf] (RCall t_classmethod [nf]);
+                                Def ng [] false [Assign [TSelf ny] (RLit (LList []))];
                                 Assign [TName ng] (RCall t_classmethod [ng]);
-                                Class nB [] [Def np [DName [t_property]] false []]];
+                                Class nB [] [Def np [DName [t_property]] false [ExprStr nx]; ExprStr ny;
+                                             Def n_init [] false [Assign [TSelf np] (RLit (LInt 1))]]];
    If TTrue [Try [Def nf [] false []] [] [Other] []] [];
    If TMain [Def ng [] false []] []].
 
